@@ -44,6 +44,9 @@ def hm? : Arg → HM | .v (.hhmm t) => t | _ => ⟨0, 0⟩
 /-- `uint8(x)` of a Go int -/
 def conv8 : Arg → UInt8 | .int n => UInt8.ofNat (n % 256).toNat | .v (.u8 n) => n | _ => 0
 
+/-- `x.To4() == nil` -/
+def notIPv4 : Arg → Bool | .v (.ip b) => (to4 b).isNone | _ => true
+
 def devZero (a : List Arg) : Bool := u32? (a.getD 0 .absent) == 0
 def dev (a : List Arg) : Val := .u32 (u32? (a.getD 0 .absent))
 def arg (a : List Arg) (i : Nat) : Arg := a.getD i .absent
@@ -107,10 +110,7 @@ def ops : List Op := [
     rejects := devZero, build := fun a => [hdr, dev a],
     result := fun _ r => .vals (r.drop 1) },
   { name := "SetAddress", request := "SetAddressRequest", reply := none,
-    rejects := fun a => devZero a ||
-      (match arg a 1, arg a 2, arg a 3 with
-       | .v (.ip x), .v (.ip y), .v (.ip z) => (to4 x).isNone || (to4 y).isNone || (to4 z).isNone
-       | _, _, _ => true),
+    rejects := fun a => devZero a || notIPv4 (arg a 1) || notIPv4 (arg a 2) || notIPv4 (arg a 3),
     build := fun a => [hdr, dev a, val? (arg a 1), val? (arg a 2), val? (arg a 3), magic],
     result := fun a _ => .vals [dev a, .bool true] },
   { name := "GetListener", request := "GetListenerRequest", reply := some "GetListenerResponse",
@@ -121,7 +121,7 @@ def ops : List Op := [
       (match arg a 1 with
        | .v (.addrPort (.v4 x y z w p)) => !((x == 0 && y == 0 && z == 0 && w == 0 && p == 0) || p != 0)
        | _ => true),
-    build := fun a => [hdr, dev a, val? (arg a 1), val? (arg a 2)],
+    build := fun a => [hdr, dev a, val? (arg a 1), .u8 (u8? (arg a 2))],
     -- `uint32(reply.SerialNumber) != controller` cannot happen after sendto's own check
     result := fun _ r => okBool r 2 },
   { name := "GetTime", request := "GetTimeRequest", reply := some "GetTimeResponse",
@@ -131,10 +131,10 @@ def ops : List Op := [
     rejects := devZero, build := fun a => [hdr, dev a, val? (arg a 1)],
     result := fun _ r => .vals [r.getD 1 .none_, r.getD 2 .none_] },
   { name := "GetDoorControlState", request := "GetDoorControlStateRequest", reply := some "GetDoorControlStateResponse",
-    rejects := devZero, build := fun a => [hdr, dev a, val? (arg a 1)],
+    rejects := devZero, build := fun a => [hdr, dev a, .u8 (u8? (arg a 1))],
     result := fun _ r => .vals [r.getD 1 .none_, r.getD 2 .none_, r.getD 3 .none_, r.getD 4 .none_] },
   { name := "SetDoorControlState", request := "SetDoorControlStateRequest", reply := some "SetDoorControlStateResponse",
-    rejects := devZero, build := fun a => [hdr, dev a, val? (arg a 1), .u8 (conv8 (arg a 2)), val? (arg a 3)],
+    rejects := devZero, build := fun a => [hdr, dev a, .u8 (u8? (arg a 1)), .u8 (conv8 (arg a 2)), .u8 (u8? (arg a 3))],
     result := fun _ r => .vals [r.getD 1 .none_, r.getD 2 .none_, r.getD 3 .none_, r.getD 4 .none_] },
   { name := "GetStatus", request := "GetStatusRequest", reply := some "GetStatusResponse",
     rejects := devZero, build := fun a => [hdr, dev a],
@@ -170,7 +170,7 @@ def ops : List Op := [
     rejects := devZero, build := fun a => [hdr, dev a, magic],
     result := fun _ r => okBool r 2 },
   { name := "GetTimeProfile", request := "GetTimeProfileRequest", reply := some "GetTimeProfileResponse",
-    rejects := devZero, build := fun a => [hdr, dev a, val? (arg a 1)],
+    rejects := devZero, build := fun a => [hdr, dev a, .u8 (u8? (arg a 1))],
     result := fun a r =>
       -- r: 0 MsgType 1 Serial 2 ProfileID 3 From 4 To 5-11 Mon..Sun 12-17 segments 18 Linked
       match r.getD 2 .none_ with
@@ -184,11 +184,11 @@ def ops : List Op := [
     rejects := fun a => devZero a || (date? (arg a 3)).isNone || (date? (arg a 4)).isNone ||
       segRejected (arg a 12) || segRejected (arg a 13) || segRejected (arg a 14),
     -- args: 0 dev 1 id 2 linked 3 from 4 to 5-11 Mon..Sun 12-14 segments
-    build := fun a => [hdr, dev a, val? (arg a 1), val? (arg a 3), val? (arg a 4),
+    build := fun a => [hdr, dev a, .u8 (u8? (arg a 1)), val? (arg a 3), val? (arg a 4),
       .bool (bool? (arg a 5)), .bool (bool? (arg a 6)), .bool (bool? (arg a 7)), .bool (bool? (arg a 8)),
       .bool (bool? (arg a 9)), .bool (bool? (arg a 10)), .bool (bool? (arg a 11)),
       segStart (arg a 12), segEnd (arg a 12), segStart (arg a 13), segEnd (arg a 13),
-      segStart (arg a 14), segEnd (arg a 14), val? (arg a 2)],
+      segStart (arg a 14), segEnd (arg a 14), .u8 (u8? (arg a 2))],
     result := fun _ r => okBool r 2 },
   { name := "ClearTimeProfiles", request := "ClearTimeProfilesRequest", reply := some "ClearTimeProfilesResponse",
     rejects := devZero, build := fun a => [hdr, dev a, magic],
@@ -202,13 +202,13 @@ def ops : List Op := [
     build := fun a => [hdr, dev a, val? (arg a 3), val? (arg a 4),
       .bool (bool? (arg a 5)), .bool (bool? (arg a 6)), .bool (bool? (arg a 7)), .bool (bool? (arg a 8)),
       .bool (bool? (arg a 9)), .bool (bool? (arg a 10)), .bool (bool? (arg a 11)),
-      val? (arg a 12), val? (arg a 2), .u8 (conv8 (arg a 1)), val? (arg a 13)],
+      val? (arg a 12), .u8 (u8? (arg a 2)), .u8 (conv8 (arg a 1)), .u8 (u8? (arg a 13))],
     result := fun _ r => okBool r 2 },
   { name := "RefreshTaskList", request := "RefreshTaskListRequest", reply := some "RefreshTaskListResponse",
     rejects := devZero, build := fun a => [hdr, dev a, magic],
     result := fun _ r => okBool r 2 },
   { name := "RecordSpecialEvents", request := "RecordSpecialEventsRequest", reply := some "RecordSpecialEventsResponse",
-    rejects := devZero, build := fun a => [hdr, dev a, val? (arg a 1)],
+    rejects := devZero, build := fun a => [hdr, dev a, .bool (bool? (arg a 1))],
     result := fun _ r => okBool r 2 },
   { name := "GetEvent", request := "GetEventRequest", reply := some "GetEventResponse",
     rejects := devZero, build := fun a => [hdr, dev a, val? (arg a 1)],
@@ -227,16 +227,16 @@ def ops : List Op := [
     rejects := fun a => devZero a || (u8? (arg a 1)).toNat < 1 || (u8? (arg a 1)).toNat > 4,
     build := fun a =>
       let ps := match arg a 2 with | .list xs => xs | _ => []
-      [hdr, dev a, val? (arg a 1), passcode ps 0, passcode ps 1, passcode ps 2, passcode ps 3],
+      [hdr, dev a, .u8 (u8? (arg a 1)), passcode ps 0, passcode ps 1, passcode ps 2, passcode ps 3],
     result := fun _ r => okBool r 2 },
   { name := "OpenDoor", request := "OpenDoorRequest", reply := some "OpenDoorResponse",
-    rejects := devZero, build := fun a => [hdr, dev a, val? (arg a 1)],
+    rejects := devZero, build := fun a => [hdr, dev a, .u8 (u8? (arg a 1))],
     result := fun _ r => .vals [r.getD 1 .none_, r.getD 2 .none_] },
   { name := "SetPCControl", request := "SetPCControlRequest", reply := some "SetPCControlResponse",
-    rejects := devZero, build := fun a => [hdr, dev a, magic, val? (arg a 1)],
+    rejects := devZero, build := fun a => [hdr, dev a, magic, .bool (bool? (arg a 1))],
     result := fun _ r => okBool r 2 },
   { name := "SetInterlock", request := "SetInterlockRequest", reply := some "SetInterlockResponse",
-    rejects := devZero, build := fun a => [hdr, dev a, val? (arg a 1)],
+    rejects := devZero, build := fun a => [hdr, dev a, .u8 (u8? (arg a 1))],
     result := fun _ r => okBool r 2 },
   { name := "ActivateKeypads", request := "ActivateAccessKeypadsRequest", reply := some "ActivateAccessKeypadsResponse",
     rejects := devZero,
@@ -293,10 +293,13 @@ deriving DecidableEq, Repr
 
 def serialOf (d : Bytes) : Nat := unle32 (readAt d 4 4)
 
+/-- `request[1]` -/
+def codeOf (b : Bytes) : Nat := (b.getD 1 0).toNat
+
 /-- what the driver hands back: `none` = nil (no reply expected), `some none` = error / timeout -/
 def driverReply (noReplyCode : Nat) (path : Path) (serial : Nat) (req : Bytes) (arrivals : List Bytes) :
     Option (Option Bytes) :=
-  if (req.getD 1 0).toNat = noReplyCode then none
+  if codeOf req = noReplyCode then none
   else match path with
     | .broadcastTo =>
       -- the handler: keep reading until a 64-byte datagram with the right serial number arrives
